@@ -7,12 +7,13 @@
    never compute with floats, so bit patterns are exact; +0.0 is the pattern 0).
 
    The model copies what the code DOES:
-   - reset_nworld:  `for i in range(nu): ctrl[i]=0; if i < na: act[i]=0; act_dot[i]=0`
-                    `for i in range(nq): qpos[i]=qpos0[..]; if i < nv: qvel[i]=0 ...`
+   - reset_nworld:  `for i in range(nu): ctrl[i]=0`, `for i in range(na): act[i]=0; act_dot[i]=0`
+                    `for i in range(nq): qpos[i]=qpos0[..]; if i < nv: qvel[i]=0 ... cdof_dot[i]=0`
+                    `for i in range(nhistory): history[i] = history0[i]`
                     `if worldid == 0: nacon_out[0] = 0`
    - reset_contact: clears slot conid < nacon[0] unless (mask given, worldid >= 0, world not
                     selected); a cleared slot gets worldid 0, geom (0,0), efc_address -1
-   - d.history is written by no kernel
+   - reset_xfrc_applied also clears cvel; reset_sleep tests the mocap id of the body's root
    - launches are sequential, in io.py's order: xfrc_applied, M, mocap, contact, sleep,
      nworld, then sleep.update_sleep when the SLEEP enable bit is set.
    Per-world kernels write disjoint cells per thread, so a launch over (nworld, n, ...) is
@@ -63,9 +64,10 @@ Record MModel := {
   eq_active0 : list Z;
   body_mocapid : list Z; body_treeid : list Z; body_rootid : list Z; dof_bodyid : list Z;
   body_pos : list (list (list Z)); body_quat : list (list (list Z));
-  (* host model mjm as make_data reads it *)
+  history0 : list Z;      (* m.history0: MuJoCo's initial delay buffers *)
+  (* host model mjm as make_data reads it (h_history0 = mujoco.MjData(mjm).history) *)
   h_qpos0 : list Z; h_eq_active0 : list Z;
-  h_body_pos : list (list Z); h_body_quat : list (list Z);
+  h_body_pos : list (list Z); h_body_quat : list (list Z); h_history0 : list Z;
   (* keyframes (device model) *)
   nkey : Z; key_time : list Z;
   key_qpos : list (list Z); key_qvel : list (list Z); key_act : list (list Z); key_ctrl : list (list Z);
@@ -87,6 +89,8 @@ Record World := {
   w_energy : list Z; w_qacc : list Z; w_act_dot : list Z; w_sensordata : list Z; w_M : list Z;
   w_tree_asleep : list Z; w_tree_awake : list Z; w_body_awake : list Z;
   w_body_awake_ind : list Z; w_dof_awake_ind : list Z;
+  w_cvel : list (list Z);        (* nbody x 6 *)
+  w_cdof_dot : list (list Z);    (* nv x 6 *)
   w_overflow : Z
 }.
 
@@ -104,7 +108,8 @@ Definition nworld (d : Data) : Z := lenZ (worlds d).
 Definition naconmax (d : Data) : Z := lenZ (contacts d).
 
 (* ---- make_data ------------------------------------------------------------------------- *)
-Definition bodies (m : MModel) : list Z := map Z.of_nat (seq 0 (Z.to_nat (nbody m))).
+Definition Zseq (n : Z) : list Z := map Z.of_nat (seq 0 (Z.to_nat n)).
+Definition bodies (m : MModel) : list Z := Zseq (nbody m).
 (* mocap_body = np.nonzero(mjm.body_mocapid >= 0)[0] ; mocap_id = mjm.body_mocapid[mocap_body] *)
 Definition mocap_body (m : MModel) : list Z := filter (fun b => 0 <=? nthZ (body_mocapid m) b (-1)) (bodies m).
 Definition mocap_id (m : MModel) : list Z := map (fun b => nthZ (body_mocapid m) b (-1)) (mocap_body m).
@@ -125,19 +130,20 @@ Definition initial_body_awake (m : MModel) : list Z :=
 
 Definition fresh_world (m : MModel) : World := {|
   w_time := 0; w_qpos := h_qpos0 m; w_qvel := zeros (nv m); w_act := zeros (na m);
-  w_history := zeros (nhistory m);
+  w_history := h_history0 m;
   w_qacc_warmstart := zeros (nv m); w_ctrl := zeros (nu m); w_qfrc_applied := zeros (nv m);
   w_xfrc_applied := repeat (zeros 6) (Z.to_nat (nbody m));
   w_eq_active := h_eq_active0 m;
   w_mocap_pos := fresh_mocap m (h_body_pos m); w_mocap_quat := fresh_mocap m (h_body_quat m);
   w_userdata := zeros (nuserdata m);
   w_solver_niter := 0; w_ne := 0; w_nf := 0; w_nl := 0; w_nefc := 0;
-  w_ntree_awake := 0; w_nbody_awake := 0; w_nv_awake := 0;
+  w_ntree_awake := ntree m; w_nbody_awake := nbody m; w_nv_awake := nv m;
   w_energy := [0; 0]; w_qacc := zeros (nv m); w_act_dot := zeros (na m);
   w_sensordata := zeros (nsensordata m); w_M := zeros (nM m);
   w_tree_asleep := zconst (ntree m) (- (1 + minawake m)); w_tree_awake := zconst (ntree m) 1;
   w_body_awake := initial_body_awake m;
-  w_body_awake_ind := zeros (nbody m); w_dof_awake_ind := zeros (nv m);
+  w_body_awake_ind := Zseq (nbody m); w_dof_awake_ind := Zseq (nv m);   (* np.arange *)
+  w_cvel := repeat (zeros 6) (Z.to_nat (nbody m)); w_cdof_dot := repeat (zeros 6) (Z.to_nat (nv m));
   w_overflow := 0
 |}.
 
@@ -167,7 +173,7 @@ Fixpoint map_worlds_from (mask : option (list bool)) (f : Z -> World -> World) (
 Definition map_worlds mask f (d : Data) : Data :=
   {| worlds := map_worlds_from mask f 0 (worlds d); contacts := contacts d; nacon := nacon d |}.
 
-Definition set_xfrc (x : World) (v : list (list Z)) : World := {|
+Definition set_xfrc (x : World) (v cv : list (list Z)) : World := {|
   w_time := w_time x; w_qpos := w_qpos x; w_qvel := w_qvel x; w_act := w_act x; w_history := w_history x;
   w_qacc_warmstart := w_qacc_warmstart x; w_ctrl := w_ctrl x; w_qfrc_applied := w_qfrc_applied x;
   w_xfrc_applied := v; w_eq_active := w_eq_active x; w_mocap_pos := w_mocap_pos x; w_mocap_quat := w_mocap_quat x;
@@ -175,7 +181,8 @@ Definition set_xfrc (x : World) (v : list (list Z)) : World := {|
   w_nefc := w_nefc x; w_ntree_awake := w_ntree_awake x; w_nbody_awake := w_nbody_awake x; w_nv_awake := w_nv_awake x;
   w_energy := w_energy x; w_qacc := w_qacc x; w_act_dot := w_act_dot x; w_sensordata := w_sensordata x; w_M := w_M x;
   w_tree_asleep := w_tree_asleep x; w_tree_awake := w_tree_awake x; w_body_awake := w_body_awake x;
-  w_body_awake_ind := w_body_awake_ind x; w_dof_awake_ind := w_dof_awake_ind x; w_overflow := w_overflow x |}.
+  w_body_awake_ind := w_body_awake_ind x; w_dof_awake_ind := w_dof_awake_ind x;
+  w_cvel := cv; w_cdof_dot := w_cdof_dot x; w_overflow := w_overflow x |}.
 
 Definition set_M (x : World) (v : list Z) : World := {|
   w_time := w_time x; w_qpos := w_qpos x; w_qvel := w_qvel x; w_act := w_act x; w_history := w_history x;
@@ -185,7 +192,8 @@ Definition set_M (x : World) (v : list Z) : World := {|
   w_nefc := w_nefc x; w_ntree_awake := w_ntree_awake x; w_nbody_awake := w_nbody_awake x; w_nv_awake := w_nv_awake x;
   w_energy := w_energy x; w_qacc := w_qacc x; w_act_dot := w_act_dot x; w_sensordata := w_sensordata x; w_M := v;
   w_tree_asleep := w_tree_asleep x; w_tree_awake := w_tree_awake x; w_body_awake := w_body_awake x;
-  w_body_awake_ind := w_body_awake_ind x; w_dof_awake_ind := w_dof_awake_ind x; w_overflow := w_overflow x |}.
+  w_body_awake_ind := w_body_awake_ind x; w_dof_awake_ind := w_dof_awake_ind x;
+  w_cvel := w_cvel x; w_cdof_dot := w_cdof_dot x; w_overflow := w_overflow x |}.
 
 Definition set_mocap (x : World) (p q : list (list Z)) : World := {|
   w_time := w_time x; w_qpos := w_qpos x; w_qvel := w_qvel x; w_act := w_act x; w_history := w_history x;
@@ -195,7 +203,8 @@ Definition set_mocap (x : World) (p q : list (list Z)) : World := {|
   w_nefc := w_nefc x; w_ntree_awake := w_ntree_awake x; w_nbody_awake := w_nbody_awake x; w_nv_awake := w_nv_awake x;
   w_energy := w_energy x; w_qacc := w_qacc x; w_act_dot := w_act_dot x; w_sensordata := w_sensordata x; w_M := w_M x;
   w_tree_asleep := w_tree_asleep x; w_tree_awake := w_tree_awake x; w_body_awake := w_body_awake x;
-  w_body_awake_ind := w_body_awake_ind x; w_dof_awake_ind := w_dof_awake_ind x; w_overflow := w_overflow x |}.
+  w_body_awake_ind := w_body_awake_ind x; w_dof_awake_ind := w_dof_awake_ind x;
+  w_cvel := w_cvel x; w_cdof_dot := w_cdof_dot x; w_overflow := w_overflow x |}.
 
 (* sleep-related fields: tree_asleep tree_awake body_awake body_awake_ind dof_awake_ind + 3 counters *)
 Definition set_sleep (x : World) (tas taw baw bind dind : list Z) (nt nb nd : Z) : World := {|
@@ -206,11 +215,14 @@ Definition set_sleep (x : World) (tas taw baw bind dind : list Z) (nt nb nd : Z)
   w_nefc := w_nefc x; w_ntree_awake := nt; w_nbody_awake := nb; w_nv_awake := nd;
   w_energy := w_energy x; w_qacc := w_qacc x; w_act_dot := w_act_dot x; w_sensordata := w_sensordata x; w_M := w_M x;
   w_tree_asleep := tas; w_tree_awake := taw; w_body_awake := baw;
-  w_body_awake_ind := bind; w_dof_awake_ind := dind; w_overflow := w_overflow x |}.
+  w_body_awake_ind := bind; w_dof_awake_ind := dind;
+  w_cvel := w_cvel x; w_cdof_dot := w_cdof_dot x; w_overflow := w_overflow x |}.
 
-(* kernel reset_xfrc_applied, dim (nworld, nbody, 6): xfrc_applied_out[worldid, bodyid][elemid] = 0.0 *)
+(* kernel reset_xfrc_applied, dim (nworld, nbody, 6):
+   xfrc_applied_out[worldid, bodyid][elemid] = 0.0 ; cvel_out[worldid, bodyid][elemid] = 0.0 *)
 Definition k_xfrc (m : MModel) (_ : Z) (x : World) : World :=
-  set_xfrc x (cond_map (nbody m) ctrue (fun _ row => cond_map 6 ctrue (fun _ _ => 0) 0 row) [] (w_xfrc_applied x)).
+  set_xfrc x (cond_map (nbody m) ctrue (fun _ row => cond_map 6 ctrue (fun _ _ => 0) 0 row) [] (w_xfrc_applied x))
+             (cond_map (nbody m) ctrue (fun _ row => cond_map 6 ctrue (fun _ _ => 0) 0 row) [] (w_cvel x)).
 
 (* kernel reset_M, dim (nworld, d.M.shape[1]) *)
 Definition k_M (m : MModel) (_ : Z) (x : World) : World :=
@@ -254,7 +266,7 @@ Definition k_sleep (m : MModel) (_ : Z) (x : World) : World :=
     (cond_map n (fun e => e <? ntree m) (fun _ _ => 1) 0 (w_tree_awake x))
     (cond_map n (fun e => e <? nbody m)
        (fun e _ => if nthZ (body_treeid m) e 0 <? 0
-                   then (if 0 <=? nthZ (body_mocapid m) e (-1) then AWAKE else STATIC)
+                   then (if 0 <=? nthZ (body_mocapid m) (nthZ (body_rootid m) e 0) (-1) then AWAKE else STATIC)
                    else AWAKE) 0 (w_body_awake x))
     (cond_map n (fun e => e <? nbody m) (fun e _ => e) 0 (w_body_awake_ind x))
     (cond_map n (fun e => e <? nv m) (fun e _ => e) 0 (w_dof_awake_ind x))
@@ -268,8 +280,8 @@ Definition k_nworld_w (m : MModel) (w : Z) (x : World) : World :=
   w_time := 0;
   w_qpos := cond_map (nq m) ctrue (fun i _ => nthZ q0 i 0) 0 (w_qpos x);
   w_qvel := cond_map (nq m) vguard (fun _ _ => 0) 0 (w_qvel x);
-  w_act := cond_map (nu m) (fun i => i <? na m) (fun _ _ => 0) 0 (w_act x);
-  w_history := w_history x;
+  w_act := cond_map (na m) ctrue (fun _ _ => 0) 0 (w_act x);
+  w_history := cond_map (nhistory m) ctrue (fun i _ => nthZ (history0 m) i 0) 0 (w_history x);
   w_qacc_warmstart := cond_map (nq m) vguard (fun _ _ => 0) 0 (w_qacc_warmstart x);
   w_ctrl := cond_map (nu m) ctrue (fun _ _ => 0) 0 (w_ctrl x);
   w_qfrc_applied := cond_map (nq m) vguard (fun _ _ => 0) 0 (w_qfrc_applied x);
@@ -281,11 +293,13 @@ Definition k_nworld_w (m : MModel) (w : Z) (x : World) : World :=
   w_ntree_awake := ntree m; w_nbody_awake := nbody m; w_nv_awake := nv m;
   w_energy := [0; 0];
   w_qacc := cond_map (nq m) vguard (fun _ _ => 0) 0 (w_qacc x);
-  w_act_dot := cond_map (nu m) (fun i => i <? na m) (fun _ _ => 0) 0 (w_act_dot x);
+  w_act_dot := cond_map (na m) ctrue (fun _ _ => 0) 0 (w_act_dot x);
   w_sensordata := cond_map (nsensordata m) ctrue (fun _ _ => 0) 0 (w_sensordata x);
   w_M := w_M x;
   w_tree_asleep := w_tree_asleep x; w_tree_awake := w_tree_awake x; w_body_awake := w_body_awake x;
   w_body_awake_ind := w_body_awake_ind x; w_dof_awake_ind := w_dof_awake_ind x;
+  w_cvel := w_cvel x;
+  w_cdof_dot := cond_map (nq m) vguard (fun _ _ => zeros 6) [] (w_cdof_dot x);
   w_overflow := 0
   |}.
 (* `if worldid == 0: nacon_out[0] = 0` is executed by thread 0 iff it does not return early *)
@@ -356,7 +370,8 @@ Definition k_keyframe_w (m : MModel) (key : Z) (x : World) : World := {|
   w_nefc := w_nefc x; w_ntree_awake := w_ntree_awake x; w_nbody_awake := w_nbody_awake x; w_nv_awake := w_nv_awake x;
   w_energy := w_energy x; w_qacc := w_qacc x; w_act_dot := w_act_dot x; w_sensordata := w_sensordata x; w_M := w_M x;
   w_tree_asleep := w_tree_asleep x; w_tree_awake := w_tree_awake x; w_body_awake := w_body_awake x;
-  w_body_awake_ind := w_body_awake_ind x; w_dof_awake_ind := w_dof_awake_ind x; w_overflow := w_overflow x
+  w_body_awake_ind := w_body_awake_ind x; w_dof_awake_ind := w_dof_awake_ind x;
+  w_cvel := w_cvel x; w_cdof_dot := w_cdof_dot x; w_overflow := w_overflow x
 |}.
 
 Definition reset_data_keyframe (m : MModel) (key : KeyArg) (d : Data) : option Data :=
@@ -390,7 +405,8 @@ Definition flat_world (x : World) : list Z :=
   ++ concat (w_mocap_quat x) ++ w_userdata x
   ++ [w_solver_niter x; w_ne x; w_nf x; w_nl x; w_nefc x; w_ntree_awake x; w_nbody_awake x; w_nv_awake x]
   ++ w_energy x ++ w_qacc x ++ w_act_dot x ++ w_sensordata x ++ w_M x ++ w_tree_asleep x ++ w_tree_awake x
-  ++ w_body_awake x ++ w_body_awake_ind x ++ w_dof_awake_ind x ++ [w_overflow x].
+  ++ w_body_awake x ++ w_body_awake_ind x ++ w_dof_awake_ind x ++ concat (w_cvel x) ++ concat (w_cdof_dot x)
+  ++ [w_overflow x].
 Definition flat_slot (c : Slot) : list Z :=
   [c_worldid c] ++ c_geom c ++ [c_dim c; c_type c; c_gcid c] ++ c_efc c ++ c_flt c ++ c_fev c.
 Definition flat_data (d : option Data) : list Z :=
@@ -398,3 +414,16 @@ Definition flat_data (d : option Data) : list Z :=
   | None => [-999]
   | Some d => concat (map flat_world (worlds d)) ++ concat (map flat_slot (contacts d)) ++ [nacon d]
   end.
+
+(* flattening of the static model data (lists are followed by the separator -7) *)
+Definition sep (l : list Z) : list Z := l ++ [-7].
+Definition flat_mmodel (m : MModel) : list Z :=
+  [nq m; nv m; nu m; na m; nbody m; ntree m; neq m; nuserdata m; nsensordata m; nmocap m; nhistory m; nM m;
+   nefcaddress m; nfev m; minawake m; b2z (sleep_enabled m)]
+  ++ sep (concat (qpos0 m)) ++ sep (eq_active0 m) ++ sep (body_mocapid m) ++ sep (body_treeid m)
+  ++ sep (body_rootid m) ++ sep (dof_bodyid m) ++ sep (concat (concat (body_pos m))) ++ sep (concat (concat (body_quat m)))
+  ++ sep (history0 m)
+  ++ sep (h_qpos0 m) ++ sep (h_eq_active0 m) ++ sep (concat (h_body_pos m)) ++ sep (concat (h_body_quat m))
+  ++ sep (h_history0 m)
+  ++ [nkey m] ++ sep (key_time m) ++ sep (concat (key_qpos m)) ++ sep (concat (key_qvel m)) ++ sep (concat (key_act m))
+  ++ sep (concat (key_ctrl m)) ++ sep (concat (concat (key_mpos m))) ++ sep (concat (concat (key_mquat m))).
